@@ -27,7 +27,7 @@ CT_OPS = [
     "sc_add", "sc_sub", "sc_mul", "sc_neg", "sc_invert", "sc_from_bytes_mod_order", "sc_from_bytes_mod_order_wide",
     "sc_from_canonical_bytes", "sc_batch_invert",
     "ed_add", "ed_sub", "ed_compress", "ed_compress_sp1", "ed_to_montgomery", "ed_neg", "ed_double", "ed_ct_eq", "ed_mul_base", "ed_mul", "ed_mul_secret_point", "ed_mul_clamped", "ed_mul_base_clamped",
-    "ed_compress_mixed", "ed_to_montgomery_mixed", "ed_ct_eq_mixed", "ed_mul_secret_point_mixed", "ed_add_mixed", "ris_compress_mixed", "ris_eq_mixed", "ris_eq_unequal",
+    "ed_compress_mixed", "ed_to_montgomery_mixed", "ed_ct_eq_mixed", "ed_mul_secret_point_mixed", "ed_add_mixed", "ris_compress_mixed", "ris_eq_mixed", "ris_eq_unequal", "ed_add_maybe_equal", "ed_sub_maybe_equal", "ed_eq_maybe_equal", "ris_add_maybe_equal",
     "ed_multiscalar_1", "ed_multiscalar_2", "ed_multiscalar_3", "ris_multiscalar_2", "ed_multiscalar_n190", "ed_multiscalar_n500", "ed_multiscalar_n800", "ris_multiscalar_n190",
     "ed_table_radix16", "ed_table_radix32", "ed_table_radix64", "ed_table_radix128", "ed_table_radix256",
     "ed_table_radix16_clamped", "ed_table_radix32_clamped", "ed_table_radix64_clamped", "ed_table_radix128_clamped", "ed_table_radix256_clamped",
